@@ -1,6 +1,8 @@
 """Shared slots for the property checkers: module groups and scoped function lists."""
 from __future__ import annotations
 
+import ast
+
 import typing
 
 from ..core import FuncInfo
@@ -60,8 +62,20 @@ def time_trunc_scope(ctx):
   return pred
 
 
+def _whole_seconds_times_rate(ex, f, call, env) -> bool:
+  """int(<float of a whole number of seconds> * <frame rate that is an int or a Fraction>), whichever way the rate is named."""
+  from ..rules import exa
+  a = call.args[0] if len(call.args) == 1 else None
+  if not (isinstance(a, ast.BinOp) and isinstance(a.op, ast.Mult)):
+    return False
+  for x, y in ((a.left, a.right), (a.right, a.left)):
+    if ex.kind(f, x, env) <= {exa.IFLOAT} and ex.kind(f, y, env) <= {exa.INT, exa.FRAC}:
+      return True
+  return False
+
+
 EXA_EXEMPT = {
-  ("ttconv.time_code:SmpteTimeCode.to_frames", "int(super().to_seconds() * frame_rate)"):
+  ("ttconv.time_code:SmpteTimeCode.to_frames", _whole_seconds_times_rate):
     "float(<int seconds>) times a frame rate that is an int (drop-frame branch, ceil) or an integer-valued Fraction "
     "(non-drop rates 24/25/30/50/60): the product is an exact integer below 2**53",
 }
